@@ -662,6 +662,10 @@ func init() {
 	regKind("AddCreditType", true, func(g *Gen, a *Actor, v *Snapshot, mode int) sdk.Msg {
 		// incl. abbreviations that are prefixes of one another (C / CA / CAB, B / BI / BIO, K / KSH)
 		ab := Pick(g.R, []string{"BIO", "KSH", "AB", "Z", "XYZ", "CA", "CAB", "B", "BI", "K", "C"})
+		if mode != ModeValid && g.R.Chance(0.6) {
+			// not an abbreviation: other alphabets, case, digits, length, white space
+			ab = Pick(g.R, []string{"\u03a9", "\u00c9", "K\u00d8", "Ab", "c", "ABCD", "A1", "", "A ", " A", "A-B", "\u0410\u0411", "I\u0307"})
+		}
 		prec := uint32(6)
 		if mode != ModeValid && g.R.Chance(0.5) {
 			prec = uint32(g.R.Range(0, 9))
@@ -701,7 +705,8 @@ func init() {
 	// ---- basket ----
 	regKind("BasketCreate", false, func(g *Gen, a *Actor, v *Snapshot, mode int) sdk.Msg {
 		ab := g.creditTypeAbbrev(v, mode)
-		m := &baskettypes.MsgCreate{Curator: a.Addr, Name: Pick(g.R, []string{"NCT", "BCT", "ECO", "XB1", "Abc", "Abcd", "abc", "NCT1", "ABCDEFGH", "N" + fmt.Sprint(g.R.Intn(50))}), Description: "basket", DisableAutoRetire: g.R.Chance(0.5), CreditTypeAbbrev: ab}
+		m := &baskettypes.MsgCreate{Curator: a.Addr, Name: Pick(g.R, []string{"NCT", "BCT", "ECO", "XB1", "Abc", "Abcd", "abc", "NCT1", "ABCDEFGH", "N" + fmt.Sprint(g.R.Intn(50))}), Description: "basket", DisableAutoRetire: g.R.Chance(0.5), CreditTypeAbbrev: ab,
+			Exponent: Pick(g.R, []uint32{0, 0, 0, 6, 3, 9, 18, 1, 4294967295})} // deprecated, documented as unused: any value is valid
 		for _, c := range v.Classes {
 			if (c.CreditTypeAbbrev == ab || mode != ModeValid) && g.R.Chance(0.7) {
 				m.AllowedClasses = append(m.AllowedClasses, c.Id)
@@ -1270,7 +1275,7 @@ func (g *Gen) dateCriteria(v *Snapshot, mode int) *baskettypes.DateCriteria {
 	case 0:
 		return nil
 	case 1:
-		if g.R.Chance(0.07) && !g.P.AvoidKnown {
+		if g.R.Chance(0.07) {
 			// what the wire format can carry beyond what a calendar can: any seconds, any nanos
 			g.W.Probe("date_criterion_beyond_calendar_range")
 			return &baskettypes.DateCriteria{MinStartDate: &gogotypes.Timestamp{
@@ -1289,7 +1294,7 @@ func (g *Gen) dateCriteria(v *Snapshot, mode int) *baskettypes.DateCriteria {
 		}
 		return &baskettypes.DateCriteria{MinStartDate: ts}
 	case 2:
-		if g.R.Chance(0.07) && !g.P.AvoidKnown {
+		if g.R.Chance(0.07) {
 			g.W.Probe("date_criterion_beyond_calendar_range")
 			return &baskettypes.DateCriteria{StartDateWindow: &gogotypes.Duration{
 				Seconds: Pick(g.R, []int64{86400, 86400, 315576000000, 315576000001, 1 << 62, 100000}),
@@ -1528,7 +1533,7 @@ func (g *Gen) contentHash(mode int, graphOnly bool) *data.ContentHash {
 		case 1:
 			h.hash = h.hash[:g.R.Intn(len(h.hash))]
 		case 2:
-			h.ext = Pick(g.R, []string{"", "a", "toolongext", "p.f", "PDF"})
+			h.ext = Pick(g.R, []string{"", "a", "toolongext", "p.f", "PDF", ".rdf", ".tar.gz", "-a.b", ".a.b", "!jpg", "jp!g", "jpg!", "r df", "rdf ", "\u00e9t\u00e9", "a.b", "..", "a/b"})
 		default:
 			h.canon = 0
 		}
